@@ -1,3 +1,4 @@
+import BoolFn.Proofs.BddQuant
 import BoolFn.Proofs.TableOps
 import BoolFn.Bdd
 /-! # C05 — Restriction fixes variables to constants and removes them from the inputs
@@ -86,6 +87,29 @@ theorem table_restrict_foreign (v : PVal α) (t : Table α) (h : t.WF) (hf : ∀
     intro x hx
     have : x ∉ v.keys := fun hk => hf x hk hx
     simp [override, (PVal.get?_eq_none_iff v x).mpr this]
+end
+
+section
+variable [Ord α] [Std.TransOrd α] [Std.LawfulEqOrd α]
+/-! ### decision diagrams: lib-bdd `restrict` + `prune_bdd_variables` (the assignment is a `BTreeMap`:
+    distinct keys) -/
+theorem bdd_restrict (v : PVal α) (hv : (v.map (·.1)).Nodup) (b : Bdd α) (hb : b.WF) :
+    ∃ b', Bdd.restrict v b = .ok b' ∧ b'.WF ∧
+      (∀ x, x ∈ b'.inputs ↔ x ∈ b.inputs ∧ x ∉ v.keys) ∧
+      ∀ ρ, b'.den ρ = b.den (override ρ v) := by
+  obtain ⟨b', h1, h2, h3, h4⟩ := Bdd.restrict_den v hv b hb
+  refine ⟨b', h1, h2, ?_, h4⟩
+  intro x
+  rw [h3, List.mem_filter]
+  have : (!(PVal.get? v x).isSome) = true ↔ x ∉ v.keys := by
+    rw [← PVal.get?_eq_none_iff]; cases PVal.get? v x <;> simp
+  rw [this]
+/-- the lemma that shows the `debug_assert!` of `prune_bdd_variables` cannot fire and its unsafe calls are sound -/
+theorem prune_keeps_function (b : Bdd α) (new : List α) (hb : b.WF) (hnew : StrictSorted new)
+    (hsub : ∀ x ∈ new, x ∈ b.inputs)
+    (hess : ∀ i ∈ b.inner.supportSet, ∀ (hi : i < b.inputs.length), b.inputs[i] ∈ new) :
+    ∃ b', Bdd.prune b new = .ok b' ∧ b'.WF ∧ b'.inputs = new ∧ ∀ ρ, b'.den ρ = b.den ρ :=
+  prune_den b new hb hnew hsub hess
 end
 
 /-- non-vacuity: two inputs fixed plus a foreign key on a three-input table -/
